@@ -178,7 +178,7 @@ theorem filterMap_codeOf (s : List Char) :
   induction s with
   | nil => simp
   | cons c cs ih =>
-    simp only [List.map_cons, List.filterMap_cons, codeOf_code, ih]
+    rw [List.map_cons, List.filterMap_cons, codeOf_code, ih]
 
 theorem all_ground_con {α : Type} (s : List α) (f : α → Atomic) :
     (s.map fun c => Arg.con (f c)).all Arg.ground = true := by
